@@ -1,6 +1,7 @@
 package main
 
 func checkC17(c *Ctx) {
+	e1CheckConstants(c, "C17-K6", []string{"dhcpv4.", "iana.Arch", "iana.HWType"}, 200)
 	r := c.R
 	r.Decides = append(r.Decides,
 		"K4 codec symmetry and RFC layout of each DHCPv4 option value type (E2 rows: RFC 2132 §3–9, 3442, 3004, 3925, 4578)")
